@@ -25,4 +25,10 @@ CLAIMED = {
   "text": "spec/text/Template.tla defines the interpolation grammar as an AST with Render and Eval (written from the Compose grammar). TLC enumerates every template up to the size bound x 16 variable states, checks algebraic laws of the evaluator on each, and the harness replays every state on the real Substitute (and a slice through loader.LoadWithContext). spec/text/TemplateStrings.tla classifies every string over an 11-symbol alphabet up to length 5 (6) as clean / malformed / complex by a scanner written from the grammar: clean strings must give the exact value, malformed ones an error, all of them must return without panic.",
   "note": "Exhaustive within the bounds (names {A,b_1}, 4 literals, nesting depth 1 (2 in thorough)); deeper nesting is not enumerated. Strings of class complex are only checked for totality (their exact value is covered by the grammar enumeration).",
  },
+ "C18": {
+  "level": "model_checking",
+  "technique": "TLA+ dotenv line-grammar spec (AST, renderer, evaluator) enumerated exhaustively by TLC; every state replayed on dotenv.ParseWithLookup; string classifier for the error side",
+  "text": "spec/text/Dotenv.tla defines env files as an AST of lines (assign with export/separator/quoting/atoms/trailing comment, bare, comment, blank) with RenderFile and EvalFile (lookup first, earlier lines second, later wins, single quotes literal, escapes in double quotes, inline comment cut, re-using Template.tla for interpolation). TLC enumerates all 1-line files and 2-line files (small x all; all x small in thorough) x LF/CRLF x final newline, and the harness compares the real parser's map (or error) with the grammar's on every state. spec/text/DotenvStrings.tla classifies every string over a 10-symbol alphabet up to length 5 (6) into unterminated-quote / invalid-key (must error) / other (must return); seeded byte mutations add longer inputs for the no-crash side.",
+  "note": "Files of more than 2 lines are not enumerated; value shapes are limited to 2 atoms from the atom alphabet. Corner shapes the statement leaves open (empty key `=x`, `\\'` inside single quotes, `A=1#c`) are kept out of the exact-value generator and stay on the totality side.",
+ },
 }
